@@ -144,6 +144,13 @@ HeldSnapshotConsistent ==
   \A n \in Nodes : (Live(n) /\ ~node[n].needLoad /\ node[n].snap \in DOMAIN snaps) =>
      LET c == snaps[node[n].snap] IN c.last.idx <= node[n].applied
 
+(* after compaction a node can still bring a lagging follower up to date: whatever it cut off the head of its log is *)
+(* covered by the complete snapshot it holds (in memory or as its dump file), and the log continues that snapshot     *)
+CompactedPrefixCovered ==
+  \A n \in Nodes : (Live(n) /\ ~node[n].needLoad /\ Len(node[n].log) > 0 /\ node[n].log[1].idx > 1) =>
+     /\ node[n].snap \in DOMAIN snaps
+     /\ snaps[node[n].snap].last.idx >= node[n].log[1].idx
+
 (* C12: a raising command is passed over by every replica: whoever has applied past its position holds *)
 (* every later regular command of the common sequence (covered by StateIsPrefixFold), its callback fires *)
 (* once (CallbackAtMostOnce), nothing escapes the entry points (NoEscape), and a tick that starts with  *)
@@ -277,6 +284,7 @@ StateViolations ==
 \cup (IF SnapshotAtPosition THEN {} ELSE {"C09.SnapshotAtPosition"})
 \cup (IF TransferIntegrity THEN {} ELSE {"C09.TransferIntegrity"})
 \cup (IF HeldSnapshotConsistent THEN {} ELSE {"C09.HeldSnapshotConsistent"})
+\cup (IF CompactedPrefixCovered THEN {} ELSE {"C09.CompactedPrefixCovered"})
 
 -----------------------------------------------------------------------------
 (* step formulas: evaluated on (unprimed, primed) *)
